@@ -33,8 +33,8 @@ def toItems (es : List Ext) : List Item := es.map fun e => .elem e.id e.payload
 
 def extOf (h : Header) : Option ExtBlock :=
   if h.extension then
-    some (if h.extProfile == profileOneByte then .oneByte (toItems h.exts)
-          else if h.extProfile == profileTwoByte then .twoByte (toItems h.exts)
+    some (if h.extProfile == profileOneByte then .oneByte (toItems h.exts) none
+          else if h.extProfile == profileTwoByte then .twoByte 0 (toItems h.exts)
           else .legacy h.extProfile (match h.exts with | e :: _ => e.payload | [] => []))
   else none
 
@@ -109,13 +109,13 @@ theorem extBody_ofPacket (h : Header) (hx : h.extension = true)
     ∃ b, extOf h = some b ∧ b.profile = h.extProfile ∧ extBodyBytes h = .ok b.body ∧ b.body.length = extBodySize h := by
   by_cases h1 : h.extProfile == profileOneByte
   · simp only [h1, ↓reduceIte, Bool.and_eq_true] at he
-    refine ⟨.oneByte (toItems h.exts), by simp [extOf, hx, h1], ?_, ?_, ?_⟩
+    refine ⟨.oneByte (toItems h.exts) none, by simp [extOf, hx, h1], ?_, ?_, ?_⟩
     · simp only [ExtBlock.profile]; simp only [beq_iff_eq, profileOneByte] at h1; exact h1.symm
-    · simp [extBodyBytes, h1, ExtBlock.body, body1_toItems _ he.1]
-    · simp only [ExtBlock.body, body1_toItems _ he.1, extBodySize, h1, ↓reduceIte, flatten1_length]
+    · simp [extBodyBytes, h1, ExtBlock.body, body1_toItems _ he.1, stopBytes]
+    · simp only [ExtBlock.body, body1_toItems _ he.1, extBodySize, h1, ↓reduceIte, stopBytes, List.append_nil, flatten1_length]
   · by_cases h2 : h.extProfile == profileTwoByte
     · simp only [h1, h2, ↓reduceIte, Bool.false_eq_true, Bool.and_eq_true] at he
-      refine ⟨.twoByte (toItems h.exts), by simp [extOf, hx, h1, h2], ?_, ?_, ?_⟩
+      refine ⟨.twoByte 0 (toItems h.exts), by simp [extOf, hx, h1, h2], ?_, ?_, ?_⟩
       · simp only [ExtBlock.profile]; simp only [beq_iff_eq, profileTwoByte] at h2; exact h2.symm
       · simp [extBodyBytes, h1, h2, ExtBlock.body, body2_toItems]
       · simp only [ExtBlock.body, body2_toItems, extBodySize, h1, h2, ↓reduceIte, Bool.false_eq_true, flatten2_length]
@@ -199,17 +199,6 @@ theorem toItems_ok1 (es : List Ext) (h : es.all extOk1 = true) : (toItems es).al
   simp only [Item.ok1, Bool.and_eq_true, decide_eq_true_eq]
   exact ⟨⟨⟨by omega, b⟩, c⟩, d⟩
 
-theorem toItems_noReserved (es : List Ext) (h : es.all extOk1 = true) : (toItems es).any Item.isReserved = false := by
-  rw [List.any_eq_false]
-  intro it hit
-  simp only [toItems, List.mem_map] at hit
-  obtain ⟨e, he, rfl⟩ := hit
-  have := List.all_eq_true.mp h e he
-  simp only [extOk1, Bool.and_eq_true, decide_eq_true_eq] at this
-  obtain ⟨⟨⟨a, _⟩, _⟩, _⟩ := this
-  simp only [Item.isReserved, beq_iff_eq]
-  intro h15; rw [h15] at a; simp at a
-
 theorem toItems_ok2 (es : List Ext) (h : es.all extOk2 = true) : (toItems es).all Item.ok2 = true := by
   simp only [List.all_eq_true] at h ⊢
   intro it hit
@@ -271,22 +260,20 @@ theorem extOf_ok (h : Header) (hx : h.extension = true)
   obtain ⟨b0, hb0, _, _, hlen⟩ := extBody_ofPacket h hx he
   by_cases h1 : h.extProfile == profileOneByte
   · simp only [h1, ↓reduceIte, Bool.and_eq_true, decide_eq_true_eq] at he
-    have hb : extOf h = some (.oneByte (toItems h.exts)) := by simp [extOf, hx, h1]
+    have hb : extOf h = some (.oneByte (toItems h.exts) none) := by simp [extOf, hx, h1]
     rw [hb] at hb0; cases hb0
-    have hnr := toItems_noReserved h.exts he.1
-    refine ⟨_, hb, ?_, ?_, ?_, ?_⟩
+    refine ⟨_, hb, ?_, ?_, rfl, ?_⟩
     · simp only [ExtBlock.profile]; simp only [beq_iff_eq, profileOneByte] at h1; exact h1.symm
-    · simp only [blockOk, Bool.and_eq_true, decide_eq_true_eq, toItems_ok1 _ he.1, true_and]
+    · simp only [blockOk, Bool.and_eq_true, decide_eq_true_eq, toItems_ok1 _ he.1, stopOk, true_and]
       simp only [ExtBlock.body] at hlen; omega
-    · simp only [blockUnread]; exact left1_noReserved _ _ hnr
-    · simp only [ExtBlock.elements, elems1_noReserved _ hnr, elems_toItems]
+    · simp only [ExtBlock.elements, elems_toItems]
   · by_cases h2 : h.extProfile == profileTwoByte
     · simp only [h1, h2, ↓reduceIte, Bool.false_eq_true, Bool.and_eq_true, decide_eq_true_eq] at he
-      have hb : extOf h = some (.twoByte (toItems h.exts)) := by simp [extOf, hx, h1, h2]
+      have hb : extOf h = some (.twoByte 0 (toItems h.exts)) := by simp [extOf, hx, h1, h2]
       rw [hb] at hb0; cases hb0
       refine ⟨_, hb, ?_, ?_, rfl, ?_⟩
       · simp only [ExtBlock.profile]; simp only [beq_iff_eq, profileTwoByte] at h2; exact h2.symm
-      · simp only [blockOk, Bool.and_eq_true, decide_eq_true_eq, toItems_ok2 _ he.1, true_and]
+      · simp only [blockOk, Bool.and_eq_true, decide_eq_true_eq, toItems_ok2 _ he.1, beq_self_eq_true, true_and]
         simp only [ExtBlock.body] at hlen; omega
       · simp only [ExtBlock.elements, elems_toItems]
     · simp only [h1, h2, ↓reduceIte, Bool.false_eq_true] at he
